@@ -27,6 +27,7 @@ pub struct MockState {
     pub next: ResourceId,
     pub deferred: VecDeque<(ProcessId, EffectResult)>,
     pub file_type_id: usize,
+    pub dir_type_id: usize,
     pub type_ids_pushed: u64,
     /// deterministic stream deciding which completions are deferred
     pub defer_bits: u64,
@@ -42,21 +43,35 @@ impl MockBackend {
     }
 }
 
-fn kind_of(e: &NativeEffect) -> &'static str {
+pub fn kind_of(e: &NativeEffect) -> &'static str {
     match e {
         NativeEffect::FileOpen { .. } => "FileOpen", NativeEffect::FileRead { .. } => "FileRead", NativeEffect::FileWrite { .. } => "FileWrite",
-        NativeEffect::FileFlush { .. } => "FileFlush", NativeEffect::FileClose { .. } => "FileClose", _ => "Other",
+        NativeEffect::FileFlush { .. } => "FileFlush", NativeEffect::FileClose { .. } => "FileClose",
+        NativeEffect::ReadDirOpen { .. } => "DirOpen", NativeEffect::ReadDirNext { .. } => "DirNext", NativeEffect::ReadDirClose { .. } => "DirClose", _ => "Other",
     }
 }
+
+/// the resource an effect operates on, read off the effect itself (deliberately not through `Effect::resource_id`, which is the
+/// classification the environment's ownership check relies on and therefore part of what is being monitored)
+pub fn used_resource(e: &NativeEffect) -> Option<ResourceId> {
+    match e {
+        NativeEffect::FileOpen { .. } | NativeEffect::Stat { .. } | NativeEffect::ReadDirOpen { .. } | NativeEffect::DnsResolve { .. } | NativeEffect::TcpConnect { .. } | NativeEffect::TcpListen { .. } => None,
+        NativeEffect::FileRead { resource_id, .. } | NativeEffect::FileWrite { resource_id, .. } | NativeEffect::FileFlush { resource_id } | NativeEffect::FileClose { resource_id }
+        | NativeEffect::ReadDirNext { resource_id } | NativeEffect::ReadDirClose { resource_id } | NativeEffect::DnsNext { resource_id } | NativeEffect::DnsClose { resource_id }
+        | NativeEffect::TcpListenerAccept { resource_id } | NativeEffect::TcpListenerClose { resource_id } | NativeEffect::TcpSocketRead { resource_id, .. }
+        | NativeEffect::TcpSocketWrite { resource_id, .. } | NativeEffect::TcpSocketClose { resource_id } => Some(*resource_id),
+    }
+}
+
+pub fn is_close(kind: &str) -> bool { kind == "FileClose" || kind == "DirClose" }
 
 impl EffectBackend for MockBackend {
     type E = E;
 
     fn execute(&mut self, pid: ProcessId, effect: NativeEffect) -> Result<Option<EffectResult>, Error> {
-        use quiver_core::effects::Effect;
         let mut st = self.0.lock().unwrap();
         let kind = kind_of(&effect);
-        let rid = effect.resource_id();
+        let rid = used_resource(&effect);
         let mut minted = None;
         let result: EffectResult = match &effect {
             NativeEffect::FileOpen { path, .. } => {
@@ -74,6 +89,16 @@ impl EffectBackend for MockBackend {
             NativeEffect::FileFlush { resource_id } => if st.open.contains(resource_id) { Ok((Value::ok(), vec![])) } else { Err(EffectError::InvalidArgument("not open".into())) },
             NativeEffect::FileClose { resource_id } => {
                 if st.open.remove(resource_id) { st.close_transitions.push((*resource_id, "FileClose")); Ok((Value::ok(), vec![])) } else { Err(EffectError::InvalidArgument("not open".into())) }
+            }
+            NativeEffect::ReadDirOpen { path } => {
+                if path.starts_with(b"/missing") { Err(EffectError::NotFound("no such directory".into())) } else {
+                    let id = st.next; st.next += 1; st.open.insert(id); st.ever.insert(id); minted = Some(id);
+                    Ok((Value::Resource(id, st.dir_type_id), vec![]))
+                }
+            }
+            NativeEffect::ReadDirNext { resource_id } => if st.open.contains(resource_id) { Ok((Value::Binary(Binary::Heap(0)), vec![b"entry".to_vec()])) } else { Err(EffectError::InvalidArgument(format!("resource {} not open", resource_id))) },
+            NativeEffect::ReadDirClose { resource_id } => {
+                if st.open.remove(resource_id) { st.close_transitions.push((*resource_id, "DirClose")); Ok((Value::ok(), vec![])) } else { Err(EffectError::InvalidArgument("not open".into())) }
             }
             _ => Err(EffectError::Other("unsupported in mock".into())),
         };
@@ -99,5 +124,6 @@ impl EffectBackend for MockBackend {
         let mut st = self.0.lock().unwrap();
         st.type_ids_pushed += 1;
         if let Some(i) = resources.iter().position(|r| r == "File") { st.file_type_id = i; }
+        if let Some(i) = resources.iter().position(|r| r == "Dir") { st.dir_type_id = i; }
     }
 }
